@@ -29,7 +29,7 @@ ASSUMPTIONS = [
     "sibling visiting order and order of values inside the children list are free",
     "held = held on the executions produced; depth explored up to 1e4 (quick) / 1e5 (thorough)",
 ]
-REQUIRED = ["histories_checked", "events_checked", "deep_traversals", "low_limit_traversals",
+REQUIRED = ["traversals_started_inside_callbacks", "histories_checked", "events_checked", "deep_traversals", "low_limit_traversals",
             "raising_callbacks_checked", "list_mutating_callbacks", "history_traversals",
             "inplace_reparentings", "history_copies", "history_rerootings", "handle_variants",
             "falsy_callable_callbacks", "forest_traversals", "row_permuted_topologies",
@@ -52,6 +52,9 @@ LEVEL_NOTE = ("Trusts the harness's own children-list oracle (15 lines) and that
 
 APIS = ("su", "tree", "node")
 MODES = ("e", "l", "el")
+
+
+NESTED = [0]
 
 
 class Tok:
@@ -125,13 +128,53 @@ class _FalsyCallable:
         return 0
 
 
-def _run_traverse(tree, api, mode, start, *, raise_at=None, hostile=False, falsy=False):
-    """Run one traversal with recording callbacks; returns (events, ret, node_errors)."""
+def _run_traverse(tree, api, mode, start, *, raise_at=None, hostile=False, falsy=False,
+                  nested=None):
+    """Run one traversal with recording callbacks; returns (events, ret, node_errors).
+    ``nested``: the callbacks themselves traverse -- another tree ("other"), or this tree from
+    another node ("same") -- and those inner traversals are checked against the same trace
+    specification; the outer history is checked by the caller as always."""
     from swcgeom.core import Tree
     from swcgeom.core import swc_utils as su
 
     ev, node_err, kept = [], [], []
     boom = RuntimeError("rv-callback-raise")
+    inner_host = G.host_tree(int(start) % 5, 6 + int(start) % 7) if nested == "other" else tree
+    inner_pid = np.array(inner_host.pid())
+    inner_runs = [0]
+
+    def inner(i):
+        if nested is None or inner_runs[0] >= 24:
+            return
+        inner_runs[0] += 1
+        m_ = len(inner_pid)
+        s_ = 0 if nested == "other" else (i * 7 + 3) % m_
+        ev2 = []
+
+        def e2(nd, arg):
+            j = int(nd) if use_su else int(nd.id)
+            tok = Tok("e", j)
+            ev2.append(("enter", j, arg, tok))
+            return tok
+
+        def l2(nd, arg):
+            j = int(nd) if use_su else int(nd.id)
+            tok = Tok("l", j)
+            ev2.append(("leave", j, list(arg), tok))
+            return tok
+
+        use_su = inner_runs[0] % 3 == 0
+        if use_su:
+            ret2 = su.traverse((inner_host.id(), inner_host.pid()), enter=e2, leave=l2, root=s_)
+        elif inner_runs[0] % 3 == 1:
+            ret2 = inner_host.traverse(enter=e2, leave=l2, root=s_)
+        else:
+            ret2 = inner_host.node(s_).traverse(enter=e2, leave=l2)
+        NESTED[0] += 1
+        r2 = check_history(inner_pid, s_, ev2, ret2, True, True)
+        if r2 and not node_err:
+            node_err.append(f"a traversal started from inside a callback (of {nested} tree, from "
+                            f"node {s_}) is itself not structural recursion: [{r2[0]}] {r2[1]}")
 
     def ident(nd):
         if api in ("su", "su_rows"):
@@ -150,6 +193,7 @@ def _run_traverse(tree, api, mode, start, *, raise_at=None, hostile=False, falsy
             raise boom
         tok = Tok("e", i)
         ev.append(("enter", i, arg, tok))
+        inner(i)
         return tok
 
     def leave(nd, arg):
@@ -163,6 +207,7 @@ def _run_traverse(tree, api, mode, start, *, raise_at=None, hostile=False, falsy
             # into what any other node receives
             arg.append(Tok("junk", i))
             arg.reverse()
+        inner(i)
         return tok
 
     kw = {}
@@ -255,7 +300,8 @@ def _exec_small(ctx, case):
             ctx.count("row_permuted_topologies")
         (ev, ret, nerr), steps = _budget().run(2000 * (n + 2) ** 2, _run_traverse, tree, api,
                                                mode, start, hostile=bool(case.get("hostile")),
-                                               falsy=bool(case.get("falsy")))
+                                               falsy=bool(case.get("falsy")),
+                                               nested=case.get("nested"))
     except probes.StepBudgetExceeded as e:
         ctx.violation("diverged", f"traversal did not finish within the step budget: {e}", case)
         return
@@ -455,6 +501,7 @@ def run(ctx):
     with tap:
         _workload(ctx)
     ctx.count("tap__traverse_dfs", tap.counts["_traverse_dfs"])
+    ctx.count("traversals_started_inside_callbacks", NESTED[0])
 
 
 def _workload(ctx):
@@ -476,6 +523,8 @@ def _workload(ctx):
                 case["falsy"] = True
             if n >= 3 and rng.random() < 0.15:
                 case["forest"] = int(rng.integers(1, 2**31 - 1))
+            elif rng.random() < 0.25:
+                case["nested"] = "other" if rng.random() < 0.5 else "same"
             ctx.case(case, nontrivial=len(ch[start]) > 0, klass=f"small/{rc['shape']}")
             execute(ctx, case)
         # all three entry points and all three modes must agree on one start per tree
